@@ -52,7 +52,7 @@ Proof. intros. apply step_inv, names_ok_reachable. Qed.
 
 (** ExtractErrno: an errno anywhere in the wrap/join tree wins over os.Err* sentinels; wrapping does not matter *)
 Theorem C15_extract_errno_first : forall pre n post,
-  first_linux pre = None -> extract_errno (pre ++ LLinux n :: post) = n.
+  first_linux pre = None -> extract_errno (pre ++ LLinux n :: post)%list = n.
 Proof. exact extract_linux_first. Qed.
 
 (** tie to the source: connState.handle recovers and answers EFAULT; every LookupFID is released by a deferred DecRef *)
